@@ -112,7 +112,7 @@ def checker_factory(modname):
                 rep_ = r1[0] == 'return' and r2[0] == 'return' and vx != x2
                 ok = False
                 sw.finding('typing error accepted', '%s at position %d of %d' % ('substitution' if kind == 'subst' else 'adjacent transposition', i, L),
-                           input=vx, altered=x2, opts=opts, today=td, approx=ctx.approx, real=[list(r1[:2]), list(r2[:2])], reproduced=rep_)
+                           input=vx, altered=x2, opts=opts, today=td, approx=ctx.approx or bool(getattr(ctx, 'soft', None)), real=[list(r1[:2]), list(r2[:2])], reproduced=rep_)
             sw.obligations.append((oid, 'undecided' if (unknown and ok) else ('proved' if ok else 'refuted'), '%d paths' % len(paths)))
         if not sw.samples:
             sw.samples.append(dict(n=n, obligations_per_accepting_path=len(kinds)))
